@@ -22,3 +22,26 @@ contract(PT + ".dejitter", serves=["C14", "C05", "C13"], spec_module="spec.adjus
                   # the adjusted times are still in time order: the constructor's sort can at most re-order points
                   # that now coincide
                   ("order", "is_sorted([snap(referenceTier.timestamps, p.time, maxDifference) for p in self.entries])")])
+
+
+# ---- IntervalTier.dejitter and morph: the refinement against the property's spec was out of reach (two per-iteration
+# choices per entry / a running sum), but the clause "an adjustment that would collapse or cross intervals raises
+# instead of returning an ill-formed tier" does not depend on what the loop computes: the collected entries are
+# summarised as an arbitrary list of the same length (R-HAVOC) and handed to the validating constructor.
+
+contract(IT + ".dejitter", serves=["C14", "C05", "C13"], spec_module="spec.tiers",
+         inputs=lambda S, cfg: dict(self=wf_interval_tier(S, "self"), referenceTier=ref(S),
+                                    maxDifference=S.real("maxDifference")),
+         # an empty reference is an error case of its own (min() of nothing: known finding KF17)
+         requires=["0 < maxDifference", "maxDifference <= 1e15", "len(referenceTier.timestamps) > 0"],
+         loops={"loop#1": {"havoc": {"newEntries": "tuple3"}}},
+         frame=["self"], may_raise=["TextgridStateError"],
+         ensures=[("well-formed", "well_formed(result)"), ("count", "len(result.entries) == len(self.entries)")])
+
+contract(IT + ".morph", serves=["C14", "C05", "C13"], spec_module="spec.tiers",
+         inputs=lambda S, cfg: dict(self=wf_interval_tier(S, "self"), targetTier=wf_interval_tier(S, "targetTier"),
+                                    filterFunc=None),
+         requires=["len(self._entries) > 0"],
+         loops={"loop#1": {"havoc": {"newEntryList": "Interval"}, "havoc_scalars": {"cumulativeAdjustAmount": "real"}}},
+         frame=["self", "targetTier"], may_raise=["TextgridStateError", "SafeZipException"],
+         ensures=[("well-formed", "well_formed(result)"), ("count", "len(result.entries) == len(self.entries)")])
